@@ -97,7 +97,7 @@ package app
 //@ define procWF(p *Process) bool = p.procConf != nil && p.procState != nil && p.logBuffer != nil &&
 //@    cancelOf(p.runCancelFn) == p.procRunCtx && cancelOf(p.readyCancelFn) == p.procReadyCtx && cancelOf(p.readyLogCancelFn) == p.procLogReadyCtx &&
 //@    p.procRunCtx != p.procReadyCtx && p.procRunCtx != p.procLogReadyCtx && p.procReadyCtx != p.procLogReadyCtx &&
-//@    closeOnly(p.procStartedChan)
+//@    closeOnly(p.procStartedChan) && ctxSeq(p.procRunCtx) < ctxCount() && ctxSeq(p.procReadyCtx) < ctxCount() && ctxSeq(p.procLogReadyCtx) < ctxCount()
 
 // ---------- wait primitives (C01/C05) ----------
 //@ func (p *Process) waitForCompletion
@@ -142,7 +142,8 @@ package app
 //@   assigns abool(p.liveProber.stopped), abool(p.readyProber.stopped), spawned[*]
 
 //@ func (p *Process) notifyDaemonStopped
-//@   assigns slept(), lastWait()
+//@   ensures sends() == old(sends()) + ite(p.procConf.IsDaemon, 1, 0)
+//@   assigns sends()
 
 //@ func (p *Process) isDaemonLaunched
 //@   ensures result <==> (p.procConf.IsDaemon && p.procState.ExitCode == 0)
@@ -170,10 +171,11 @@ package app
 //@   ensures logready-released: cancelled(p.procLogReadyCtx)
 //@   ensures started-released: closed(p.procStartedChan) || cancelled(p.procRunCtx)
 //@   ensures nocause: okCancels() == old(okCancels())
+//@   ensures health: p.procState.Health == old(p.procState.Health) || p.procState.Health == "-"
 //@   ensures unlocked(p)
 //@   assigns p.done, p.waitForStoppedFn, p.procState.Status, p.procState.ExitCode, p.procState.Health, abool(p.liveProber.stopped), abool(p.readyProber.stopped), loggerOpen(p.logger),
 //@           p.procState.SystemTime, p.procState.Age, p.procState.Name, p.procState.Mem, p.procState.CPU, p.procState.IsRunning, p.procState.IsElevated, p.procState.PasswordProvided,
-//@           cancelled[*], causeOk[*], okCancels()
+//@           cancelled[*], causeOk[*], okCancels(), cancelCalls[*]
 
 //@ ghost wasSkipped(ref) bool
 //@ func (p *Process) wontRun
@@ -207,14 +209,17 @@ package app
 //@   assigns p.waitForStoppedCtx, p.waitForStoppedFn, stops(), stopSig(stops()), stopParentOnly(stops()), ctxCount(), lastTimeout(), slept()
 
 //@ func (p *Process) doConfiguredStop
+//@   requires procWF(p)
 //@   param cancel as cancelfunc
+//@   ensures runctx: cancelCalls(p.procRunCtx) == old(cancelCalls(p.procRunCtx))
+//@   ensures wf: procWF(p)
 //@   let eff = ite(params.ShutDownTimeout == 0, 10, params.ShutDownTimeout)
 //@   ensures ran: runs() == old(runs()) + 1 && ranEnv() == lastProcEnv() && ranDir() == p.procConf.WorkingDir
 //@   ensures timeout: lastTimeout() == eff * 1000000000
-//@   ensures atmost: stops() <= old(stops()) + 1
+//@   ensures atmost: stops() <= old(stops()) + 1 && stops() >= old(stops())
 //@   ensures kill-iff-failed: stops() == old(stops()) + 1 <==> lastRunFailed()
 //@   ensures kill: stops() == old(stops()) + 1 ==> stopSig(old(stops())) == 9
-//@   assigns runs(), ranEnv(), ranDir(), lastRunFailed(), lastProcEnv(), stops(), stopSig(stops()), stopParentOnly(stops()), ctxCount(), lastTimeout(), slept()
+//@   assigns runs(), ranEnv(), ranDir(), lastRunFailed(), lastProcEnv(), stops(), stopSig(stops()), stopParentOnly(stops()), ctxCount(), lastTimeout(), slept(), sends(), cancelCalls[*]
 
 //@ func (p *Process) stopProcess
 //@   requires procWF(p) && unlocked(p)
@@ -223,8 +228,11 @@ package app
 //@   param readyLogCancelFn as cancelcausefunc
 //@   let st0 = p.procState.Status
 //@   let sp = p.procConf.ShutDownParams
-//@   ensures runctx: cancelled(p.procRunCtx)
+//@   ensures runctx: cancelReadinessFuncs ==> cancelled(p.procRunCtx)
+//@   ensures runctx-internal: !cancelReadinessFuncs && st0 != "Pending" ==> cancelCalls(p.procRunCtx) == old(cancelCalls(p.procRunCtx))
 //@   ensures keepstopflag: abool(p.isStopped) == old(abool(p.isStopped))
+//@   ensures health: p.procState.Health == old(p.procState.Health) || p.procState.Health == "-"
+//@   ensures stops-mono: stops() >= old(stops()) && runs() >= old(runs())
 //@   ensures notrunning: !isRunningState(st0) ==> stops() == old(stops()) && runs() == old(runs()) && result == nil
 //@   ensures pending: st0 == "Pending" ==> p.done && p.procState.Status == "Terminating"
 //@   ensures terminating: isRunningState(st0) ==> p.procState.Status == "Terminating" && p.procState.Health == "-"
@@ -241,7 +249,10 @@ package app
 //@   ensures cancelled(p.procRunCtx) && unlocked(p) && abool(p.isStopped) == old(abool(p.isStopped))
 //@ func (p *Process) internalStop
 //@   requires procWF(p) && unlocked(p)
-//@   ensures cancelled(p.procRunCtx) && unlocked(p)
+//@   ensures unlocked(p) && (old(p.procState.Status) != "Pending" ==> cancelCalls(p.procRunCtx) == old(cancelCalls(p.procRunCtx)))
+//@   ensures p.procState.Health == old(p.procState.Health) || p.procState.Health == "-"
+//@   ensures isRunningState(old(p.procState.Status)) ==> p.procState.Status == "Terminating" && stops() + runs() >= old(stops()) + old(runs()) + 1
+//@   ensures !isRunningState(old(p.procState.Status)) ==> stops() == old(stops()) && runs() == old(runs())
 //@ func (p *Process) shutDownNoRestart
 //@   requires procWF(p) && unlocked(p)
 //@   ensures abool(p.isStopped) && cancelled(p.procRunCtx) && unlocked(p)
@@ -283,7 +294,7 @@ package app
 
 //@ func (p *Process) waitForStdOutErr
 //@   param cancel as cancelfunc
-//@   assigns p.stdOutDone, p.stdErrDone, slept(), lastWait(), ctxCount(), lastTimeout()
+//@   assigns p.stdOutDone, p.stdErrDone, slept(), lastWait(), ctxCount(), lastTimeout(), cancelCalls[*]
 
 //@ func (p *Process) waitForDaemonCompletion
 //@   assigns slept(), lastWait()
@@ -419,3 +430,19 @@ package app
 //@   ensures gated: starts() > old(starts()) ==> gateOpen(proc.procConf)
 //@   ensures skipped: !gateOpen(proc.procConf) ==> starts() == old(starts()) && wasSkipped(proc)
 //@   ensures removed: !(proc.procConf.ReplicaName in p.runningProcesses)
+
+// ---------- C10: probe outcomes ----------
+//@ func (p *Process) onReadinessCheckEnd
+//@   requires procWF(p) && unlocked(p) && bufWF(p.logBuffer)
+//@   param readyCancelFn as cancelfunc
+//@   ensures ok: !isFatal && isOk ==> p.procState.Health == "Ready" && cancelled(p.procReadyCtx)
+//@   ensures notok: !isFatal && !isOk ==> p.procState.Health == "Not Ready"
+//@   ensures ready-only-on-success: p.procState.Health == "Ready" ==> isOk && !isFatal
+//@   ensures fatal-stops: isFatal && isRunningState(old(p.procState.Status)) ==> p.procState.Status == "Terminating" && stops() + runs() >= old(stops()) + old(runs()) + 1
+//@   ensures runctx-preserved: old(p.procState.Status) != "Pending" ==> cancelCalls(p.procRunCtx) == old(cancelCalls(p.procRunCtx))
+//@   ensures nonfatal-nostop: !isFatal ==> stops() == old(stops()) && runs() == old(runs()) && p.procState.Status == old(p.procState.Status)
+
+//@ func (p *Process) onLivenessCheckEnd
+//@   requires procWF(p) && unlocked(p) && bufWF(p.logBuffer)
+//@   ensures nonfatal: !isFatal ==> sends() == old(sends()) && p.procState.Status == old(p.procState.Status) && p.procState.Health == old(p.procState.Health)
+//@   ensures fatal-daemon: isFatal && p.procConf.IsDaemon ==> sends() == old(sends()) + 1
